@@ -1033,3 +1033,134 @@ Section Sim.
         cbn in HN; try contradiction; [exact (proj1 HN)|exact HN].
   Qed.
 End Sim.
+
+(* ------------------------------------------------------------------------------------------ *)
+(* 6. from the decidable checks to the hypotheses of the simulation                            *)
+(* ------------------------------------------------------------------------------------------ *)
+
+Definition max_len (l : list (list instr)) : nat := fold_right (fun c m => Nat.max (length c) m) 0 l.
+
+Lemma max_len_in l c : In c l -> length c <= max_len l.
+Proof.
+  induction l as [|x l IH]; intros []; cbn [max_len fold_right]; fold (max_len l).
+  - subst. lia.
+  - specialize (IH H). lia.
+Qed.
+
+(* the fuel factor of the direction optimised => original *)
+Definition world_bound (wd : world) (tpl : template) : nat :=
+  S (max_len (world_chunks wd ++ chunks_of_tpl tpl)).
+
+Lemma world_tpl_chunks wd n t c :
+  assoc_get (w_templates wd) n = Some t -> In c (chunks_of_tpl t) -> In c (world_chunks wd).
+Proof.
+  intros H Hc. destruct (assoc_get_in _ _ _ H) as (k & Hk). unfold world_chunks.
+  apply in_or_app. left. apply in_flat_map. exists (k, t). split; [exact Hk|exact Hc].
+Qed.
+
+Lemma world_comp_chunk wd n d c :
+  assoc_get (w_components wd) n = Some (d, c) -> In c (world_chunks wd).
+Proof.
+  intros H. destruct (assoc_get_in _ _ _ H) as (k & Hk). unfold world_chunks.
+  apply in_or_app. right. apply in_map_iff. exists (k, (d, c)). split; [reflexivity|exact Hk].
+Qed.
+
+Lemma lineage_chunk t b lin c : assoc_get (t_lineage t) b = Some lin -> In c lin -> In c (chunks_of_tpl t).
+Proof.
+  intros H Hc. destruct (assoc_get_in _ _ _ H) as (k & Hk). unfold chunks_of_tpl.
+  right. right. apply in_flat_map. exists (k, lin). split; [exact Hk|exact Hc].
+Qed.
+
+Lemma tpl_ok_of_world wd n t : world_ok wd = true -> assoc_get (w_templates wd) n = Some t -> tpl_ok t = true.
+Proof.
+  unfold world_ok, tpl_ok. rewrite !forallb_forall. intros H Ht c Hc. apply H.
+  exact (world_tpl_chunks _ _ _ _ Ht Hc).
+Qed.
+
+Lemma tgood_of_chunks K t :
+  (forall c, In c (chunks_of_tpl t) -> good K c) -> tgood K t.
+Proof.
+  intros H. split.
+  - apply H. right. left. reflexivity.
+  - intros b lin Hb. apply Forall_forall. intros c Hc. apply H. exact (lineage_chunk _ _ _ _ Hb Hc).
+Qed.
+
+Lemma opt_world_defined_ok wd : world_ok wd = true -> opt_world_defined wd = true.
+Proof.
+  unfold world_ok, opt_world_defined. rewrite !forallb_forall. intros H c Hc.
+  unfold opt_defined. rewrite (opt_chunk_defined c (H c Hc)). reflexivity.
+Qed.
+
+(* WHOLE-WORLD CORRECTNESS OF THE FUSION PASS.
+   wd: any world (templates with their root chunks and block lineages, components, and arbitrary
+   filters / tests / functions / arithmetic / comparison / escaping / formatting) such that
+     - every chunk passes the four decidable checks of `chunk_ok` (no fused instruction yet, jump
+       targets in range, Iterate targets forward, C07's stack validator),
+     - get_attr on Undefined is None, and filters / functions do not observe stored end_ips;
+   tpl: any template whose chunks pass the same checks (in particular any template of wd).
+   Then for every writer, block option, context and global context, rendering on the optimised
+   world agrees with rendering on the original one — same writer state (the bytes written) or
+   same error class:
+     (1) if the original render terminates with `fuel`, so does the optimised one with the SAME
+         fuel, with the same outcome;
+     (2) if the optimised render terminates with `fuel'`, so does the original one with
+         `world_bound wd tpl * fuel'`, with the same outcome;
+   and every `optimize` call made by opt_world succeeded (no index_map panic). *)
+Theorem optimize_world_correct (W : Type) (wr : W -> str -> option W) (wd : world) (tpl : template) :
+  world_ok wd = true -> tpl_ok tpl = true ->
+  (forall a, w_get_attr wd VUndef a = None) -> scope_blind wd ->
+  opt_world_defined wd = true /\
+  forall (block : option str) (c g : ctx) (w : W),
+    (forall fuel,
+       render_to W wr wd fuel tpl block c g w <> ROutOfFuel ->
+       same_outcome W (render_to W wr wd fuel tpl block c g w)
+                      (render_to W wr (opt_world wd) fuel (opt_tpl tpl) block c g w)) /\
+    (forall fuel',
+       render_to W wr (opt_world wd) fuel' (opt_tpl tpl) block c g w <> ROutOfFuel ->
+       same_outcome W (render_to W wr wd (world_bound wd tpl * fuel') tpl block c g w)
+                      (render_to W wr (opt_world wd) fuel' (opt_tpl tpl) block c g w)).
+Proof.
+  intros Hw Ht Hga Hblind. split; [exact (opt_world_defined_ok _ Hw)|].
+  set (K := max_len (world_chunks wd ++ chunks_of_tpl tpl)).
+  unfold world_ok in Hw. unfold tpl_ok in Ht. rewrite forallb_forall in Hw, Ht.
+  assert (HgW : forall c, In c (world_chunks wd) -> good K c).
+  { intros c Hc. split; [exact (chunk_ok_cgood _ (Hw c Hc))|]. apply max_len_in. apply in_or_app. left. exact Hc. }
+  assert (HgT : forall c, In c (chunks_of_tpl tpl) -> good K c).
+  { intros c Hc. split; [exact (chunk_ok_cgood _ (Ht c Hc))|]. apply max_len_in. apply in_or_app. right. exact Hc. }
+  assert (Hwt : forall n t, assoc_get (w_templates wd) n = Some t -> tgood K t).
+  { intros n t Hn. apply tgood_of_chunks. intros c Hc. apply HgW. exact (world_tpl_chunks _ _ _ _ Hn Hc). }
+  assert (Hwc : forall n d c, assoc_get (w_components wd) n = Some (d, c) -> good K c).
+  { intros n d c Hn. apply HgW. exact (world_comp_chunk _ _ _ _ Hn). }
+  pose proof (tgood_of_chunks K tpl HgT) as HT.
+  intros block c g w. split.
+  - intros fuel Hl.
+    apply (render_rel W wr wd K true fuel fuel tpl block c g w); [|exact HT|exact Hl].
+    apply (P_true W wr wd Hga Hblind K Hwt Hwc fuel fuel fuel); lia.
+  - intros fuel' Hl.
+    apply (render_rel W wr wd K false (world_bound wd tpl * fuel') fuel' tpl block c g w);
+      [|exact HT|exact Hl].
+    apply (P_false W wr wd Hga Hblind K Hwt Hwc). unfold world_bound. fold K. lia.
+Qed.
+
+(* what happens to OutOfFuel: the optimised render diverges (runs out of every fuel) exactly
+   when the original one does *)
+Corollary optimize_world_diverges (W : Type) (wr : W -> str -> option W) (wd : world) (tpl : template) :
+  world_ok wd = true -> tpl_ok tpl = true ->
+  (forall a, w_get_attr wd VUndef a = None) -> scope_blind wd ->
+  forall block c g w,
+    (forall fuel, render_to W wr wd fuel tpl block c g w = ROutOfFuel) <->
+    (forall fuel', render_to W wr (opt_world wd) fuel' (opt_tpl tpl) block c g w = ROutOfFuel).
+Proof.
+  intros Hw Ht Hga Hb block c g w.
+  destruct (optimize_world_correct W wr wd tpl Hw Ht Hga Hb) as [_ H]. destruct (H block c g w) as [H1 H2].
+  split.
+  - intros Hd fuel'.
+    destruct (render_to W wr (opt_world wd) fuel' (opt_tpl tpl) block c g w) eqn:E; [| |reflexivity]; exfalso;
+      (assert (Hl : render_to W wr (opt_world wd) fuel' (opt_tpl tpl) block c g w <> ROutOfFuel) by (rewrite E; discriminate));
+      specialize (H2 fuel' Hl); rewrite (Hd (world_bound wd tpl * fuel')) in H2; exact H2.
+  - intros Hd fuel.
+    destruct (render_to W wr wd fuel tpl block c g w) eqn:E; [| |reflexivity]; exfalso;
+      (assert (Hl : render_to W wr wd fuel tpl block c g w <> ROutOfFuel) by (rewrite E; discriminate));
+      specialize (H1 fuel Hl); rewrite (Hd fuel) in H1; rewrite E in H1; exact H1.
+Qed.
+
